@@ -1,0 +1,10 @@
+//go:build verif
+
+package remote
+
+// VerifC37EnsureValid exposes InitializeSynchronizationRequest.ensureValid (the
+// validation performed by a remote endpoint before it is initialized) to the
+// verification harness.
+func VerifC37EnsureValid(r *InitializeSynchronizationRequest) error {
+	return r.ensureValid()
+}
